@@ -7,6 +7,7 @@ from .. import core
 from ..core import q, lst, natl, boolc
 from .. import pb
 
+NAMING = True
 ID = "C03"
 ORACLE = "Oracle.C03"
 PROPS = "Props/C03.v"
